@@ -8,8 +8,10 @@ raft.RawNode code by
       raftsim; every projected state and the bag of in-flight messages must agree with the spec;
   B3  attack schedules: TLC counterexamples of the spec with ONE rule weakened (MC_RaftAtk_*.cfg), replayed on
       the real RawNodes - correct code refuses the weakened step, code with that rule broken follows it;
-  B2' seeded random schedules (crash/restart, partitions, drop/dup, conf changes v1/v2/learners, compaction and
-      snapshots, PreVote, CheckQuorum, one-entry appends) on 3-5 real RawNodes.
+  B2  seeded random runs of 3 real RawNodes inside the spec's scope, validated line by line against EtcdRaft.tla
+      by spec/TraceEtcdRaft.tla (every event must be the spec's action, every projection and the message bag equal);
+  plus seeded random schedules far outside the model (crash/restart, partitions, drop/dup, conf changes v1/v2/
+      joint/learners, compaction and snapshots, PreVote, CheckQuorum, one-entry appends) on 3-5 real RawNodes.
 THE VERDICT comes only from spec/RaftObs.tla: TLC evaluates the C15 clauses on the projection of every real node
 after every event of every real run above.  exit 1 <=> RaftObs reports a MISMATCH on a real trace.
 """
@@ -618,14 +620,15 @@ def main():
         "EtcdRaft.tla covers fixed membership without snapshots/PreVote/CheckQuorum; those features are exercised only by the random scheduler and judged by RaftObs",
         "proposal forwarding disabled, MaxInflightMsgs=256, MaxSizePerMsg unlimited or one entry; ReadIndex and leader transfer not exercised",
         "election timeouts are not simulated with the package RNG: Campaign() is an explicit event, followers tick with TickQuiesced",
+        "a panic raised by one of the library's own log-safety assertions (tocommit out of range, conflict with committed entry, ...) in a legal schedule counts as a violation (kind safety-assertion-panic); never observed on the unchanged tree",
     ]
     if divergences or panic_samples or b2_div:
         if not verdict.violations:
             # behaviour of the library departs from the specification (or it panics) but no clause of C15 was
             # falsified on any real trace: conservative "not shown" (DESIGN 2.2 B3 step 5)
             common.write_evidence(PROP, TIER, "model_checking", coverage, assumptions, time.time() - T0, 0)
-            print("INFRA-ERROR: unreproduced divergence between EtcdRaft.tla and the raft library (%d lockstep, %d panics); "
-                  "no C15 clause falsified" % (len(divergences), panics), flush=True)
+            print("INFRA-ERROR: unreproduced divergence between EtcdRaft.tla and the raft library (%d lockstep, %d trace-validation, "
+                  "%d unclassified panics); no C15 clause falsified" % (len(divergences), len(b2_div), len(panic_samples)), flush=True)
             sys.exit(2)
     verdict.finish(TIER, "model_checking", coverage, assumptions)
 
